@@ -82,6 +82,15 @@ CLAIMED = {
                 note='Each label is defined at most once (DESIGN.md section 3); references may coincide with any label or none - decided by z3. Only sections and equations carry '
                      'labels in the skeletons; bibliography keys are outside the claim.',
                 ref='DESIGN.md section 5 C09'),
+    'C10': dict(level='model_checking',
+                text='Tables of 3 rows x 4 declared columns parsed from source: \\multicolumn at every (row, position) with a SYMBOLIC span; {none, \\hline, \\cline{a-b}} in the '
+                     'four rule slots (quick: <= 2 rules, half of the placements; thorough: all 80) with a, b symbolic, with and without a spanning cell and an empty first cell; '
+                     '4 column specifications with bars plus *{n}{..} with symbolic n and bars inside/outside the group; every cell character symbolic: rows/cells/texts as written, '
+                     'spans as given with row sums = declared columns, alignment and vertical bars per column, a rule marks exactly the cells whose column interval meets its range '
+                     '(interval arithmetic proved by z3). 12 list skeletons (nesting to depth 3, multi-paragraph items, environments in items, description terms incl. brackets): '
+                     'one item per \\item holding the text up to the next \\item, nested lists inside their item, terms attached.',
+                note='A rule between two rows may be recorded on either adjacent border. longtable/tabularx/booktabs, nested tabulars and wider tables are outside the claim.',
+                ref='DESIGN.md section 5 C10'),
     'C15': dict(level='model_checking',
                 text='Bounded exhaustive over request histories of the real generator through its call interface: 7 templates of the documented grammar x histories of 2-4 '
                      '(thorough 4-6) requests x every presence pattern of the bindings (symbolic booleans) x ALL binding values of bounded length over {a,b,blank,/} (symbolic: '
